@@ -4,7 +4,7 @@ from vlib.purity import purity_step, PURITY_RULES
 
 CHECK = Check(
     "C14",
-    props_modules=["OW.Props.C14"],
+    props_modules=["OW.Props.C14", "OW.Props.C14Prefix"],
     families=[Family("KHIST", rtol=1e-9, atol_scale=1e-12, tol_by_model=TOL_BY_MODEL, args=["models=" + ",".join(ALL_MODELS), "n=8"] + EXTRA_ARGS)],
     # regenerated structural fact: no function reachable from a kernel assigns a package-level variable or calls a method of one
     # (cache objects, sync.Map, pools) — "no information survives in package-level variables" decided on the source, not only on sampled histories
@@ -19,7 +19,15 @@ CHECK = Check(
     ],
     assumptions=["all input series of a call have the same length"],
     partial=[
-        "causal_<M> : Causal M.model proved for all 41 catalogue models (causal_catalogue) over any arithmetic; hypothesis: both the whole-period run and the truncated run succeed (a panicking truncated run is not covered)",
+        "causal_<M> : Causal M.model (both the whole-period run and the truncated run succeed ⇒ equal outputs on the prefix) and the STRONG "
+        "form causalStrong_<M> (OW/Props/C14Prefix.lean: the whole-period run succeeds ⇒ the truncated run succeeds too and agrees on the "
+        "prefix; a Go panic of the truncated run is a panic of the whole run) are proved for ALL 41 catalogue models over any arithmetic "
+        "(causal_catalogue, causalStrong_catalogue): 34 whose only failure is a shape mismatch, GR4J / Lag (panics depend on parameters and "
+        "state row only), DateGenerator, RatingCurvePartition, StorageRouting (the loop stops / the loop state stays an error at the first "
+        "panicking timestep), Storage (OW/Proofs/StoragePrefix.lean: the look-up of the final volume in the level/area tables cannot panic at "
+        "a truncation point). One restriction INSIDE the statement: InstreamDissolvedNutrientDecay needs a truncation point ≥ 1 — a run over "
+        "ZERO timesteps panics in reachVolume.Get([0]) although every longer run succeeds (prefix_zero_InstreamDissolvedNutrientDecay; "
+        "all other 40 models: causalStrong_catalogue_zero)",
         "hotstart_catalogue: hot-start continuity for 36 models at R; exceptions (hotStartExceptions): DateGenerator (no state, restarts at the parameter date: hotstart_DateGenerator_counterexample), InstreamDissolvedNutrientDecay, InstreamFineSediment, Sacramento, StorageRouting (see C06)",
     ],
 )
@@ -28,7 +36,8 @@ META = dict(
     category="proof",
     text="Lean 4 theorems: `causal_<M> : Causal M.model` for all 41 catalogue models, proved directly over any arithmetic (outputs up to t "
          "are unchanged when the inputs after t are truncated or changed — also for the models where hot-start continuity fails), for "
-         "all parameters/series/truncation points; purity holds by construction in the model (total functions of parameters, states, inputs) "
+         "all parameters/series/truncation points; and `causalStrong_<M>` for all 41: a successful whole-period run implies that every "
+         "truncated run succeeds (no panic) and agrees on the prefix (InstreamDissolvedNutrientDecay: truncation points ≥ 1); purity holds by construction in the model (total functions of parameters, states, inputs) "
          "and is tied to the code by history correspondence: every Run of a history of real runs equals the history-free model's result.",
     design_ref="DESIGN.md §6 C14",
     note="Trusted: Lean kernel + 3 standard axioms; history generator (<= 12 runs over <= 4 objects per history); package-level state "
